@@ -1,6 +1,7 @@
 """C08 - waiting primitives wake exactly on notification (structural clauses only)."""
 from . import g_state, g_sync
 from .common import *
+from .common import _closure_arg
 
 EXPLANATION = ("Decides on the MIR of the current tree: who may wake a waiting thread and under which guard (S3), preservation and origin of the "
                "park token (S4, S8), block/wake pairing (S7), the notify/unpark happens-before edges (Y1), the order of steps in Condvar::wait "
@@ -81,6 +82,22 @@ def W2(ctx):
         body = fn.body
         drains = [(b, t) for (b, t, c) in prog.sites(inst) if prog.callee_key(c).endswith("::drain")]
         unparks = [(b, t) for (b, t, c) in prog.sites(inst) if prog.callee_key(c) == "rt::thread::Set::unpark"]
+        # equivalent form: drain(..).for_each(|thread| execution.threads.unpark(thread))
+        fe = [(b, t) for (b, t, c) in prog.sites(inst) if callee_path(t) == "std::iter::Iterator::for_each"]
+        if len(drains) == 1 and not unparks and len(fe) == 1 and "drain" in canon(arg_expr(body, fe[0][1], 0)):
+            ck2 = _closure_arg(arg_expr_call(body, fe[0][1]))
+            cf = prog.fns.get(ck2) if ck2 else None
+            good = False
+            if cf is not None:
+                ci = prog.ident(ck2)
+                ups = [(b2, t2) for (b2, t2, c2) in prog.sites(ci) if prog.callee_key(c2) == "rt::thread::Set::unpark"]
+                good = len(ups) == 1 and strip(arg_expr(cf.body, ups[0][1], 1))[0] == "param" and every_path_passes(cf.body, [ups[0][0]]) and \
+                    "RangeFull" in canon(arg_expr(body, drains[0][1], 1)) and mentions_field(arg_expr(body, drains[0][1], 0), CSTATE, "waiters") is not None
+            if good:
+                ctx.ok("W2", "rt::condvar::Condvar::notify_all", "drains the whole queue and unparks every drained waiter (for_each form)", [site_str(prog, fk, fe[0][0])])
+            else:
+                ctx.bad("W2", "rt::condvar::Condvar::notify_all", "notify_all must drain(..) all waiters and unpark each of them", fn.loc())
+            return
         ok = len(drains) == 1 and len(unparks) == 1
         if ok:
             a = arg_expr(body, unparks[0][1], 1)
